@@ -6,7 +6,7 @@ import json, os, re, shutil, subprocess, sys
 pid = sys.argv[1]
 extra_props = sys.argv[2:]
 SRC = f"/tmp/seed/{pid}"
-WT = "/tmp/seedeval/repo"
+WT = os.environ.get("SEEDEVAL_WT", "/tmp/seedeval/repo")
 V = os.path.dirname(os.path.dirname(os.path.abspath(__file__)))
 env = dict(os.environ, GOFLAGS="-mod=mod", GOPROXY="off")
 def sh(cmd, cwd=None, timeout=900):
